@@ -113,6 +113,9 @@ class CArr(object):
 
     def at(self, i):
         i = z3.IntVal(i) if isinstance(i, int) else i
+        log = getattr(self, "read_log", None)
+        if log is not None:
+            log.append(i)
         return self.get(z3.simplify(i))
 
     def store(self, i, v, guard=None):
@@ -348,8 +351,17 @@ class CExec(object):
         return m(s, st)
 
     def s_CompoundStmt(self, s, st):
-        for c in s.get("inner", []):
-            self.exec_stmt(c, st)
+        items = s.get("inner", [])
+        i = 0
+        hook = getattr(self, "block_hook", None)
+        while i < len(items):
+            if hook is not None:
+                j = hook(self, items, i, st)
+                if j is not None:
+                    i = j
+                    continue
+            self.exec_stmt(items[i], st)
+            i += 1
 
     def s_NullStmt(self, s, st):
         pass
@@ -1067,3 +1079,302 @@ def sincos_axioms(terms):
     """sin^2 + cos^2 = 1 for each argument term."""
     s, c = uf("sin", 1), uf("cos", 1)
     return [s(t) * s(t) + c(t) * c(t) == 1 for t in terms]
+
+
+# --------------------------------------------------------------------------
+# loop rules and block contracts
+# --------------------------------------------------------------------------
+
+def _walk(n):
+    if not isinstance(n, dict):
+        return
+    yield n
+    for c in n.get("inner", []) or []:
+        for x in _walk(c):
+            yield x
+
+
+def base_decl(e):
+    """Declaration id at the root of an lvalue expression (None if not found)."""
+    while isinstance(e, dict) and e.get("kind"):
+        k = e["kind"]
+        if k == "DeclRefExpr":
+            return e["referencedDecl"]["id"]
+        if k in ("MemberExpr", "ArraySubscriptExpr", "ImplicitCastExpr", "ParenExpr",
+                 "CStyleCastExpr") or (k == "UnaryOperator" and e.get("opcode") in ("*", "&")):
+            e = e["inner"][0]
+            continue
+        return None
+    return None
+
+
+# pointer arguments that the callee only reads (from the callee's contract)
+READONLY_PTR_ARGS = {"qac_apply": (0,), "qabc_apply": (0,)}
+
+
+def modified_decls(node):
+    """Ids of declarations assigned (or passed by address / as array) inside
+    `node`, minus those declared inside it."""
+    mods, declared = set(), set()
+    for n in _walk(node):
+        k = n.get("kind")
+        if k == "VarDecl":
+            declared.add(n["id"])
+        elif k in ("BinaryOperator", "CompoundAssignOperator") and \
+                (n.get("opcode") == "=" or k == "CompoundAssignOperator"):
+            d = base_decl(n["inner"][0])
+            if d:
+                mods.add(d)
+        elif k == "UnaryOperator" and n.get("opcode") in ("++", "--"):
+            d = base_decl(n["inner"][0])
+            if d:
+                mods.add(d)
+        elif k == "CallExpr":
+            callee = n["inner"][0]
+            while callee.get("kind") in ("ImplicitCastExpr", "ParenExpr"):
+                callee = callee["inner"][0]
+            cname = (callee.get("referencedDecl") or {}).get("name")
+            ro = READONLY_PTR_ARGS.get(cname, ())
+            for ai, a in enumerate(n["inner"][1:]):
+                if ai in ro:
+                    continue
+                x = a
+                while x.get("kind") in ("ImplicitCastExpr", "ParenExpr"):
+                    x = x["inner"][0]
+                if x.get("kind") == "UnaryOperator" and x.get("opcode") == "&":
+                    d = base_decl(x["inner"][0])
+                    if d:
+                        mods.add(d)
+    return mods - declared
+
+
+class Snapshot(object):
+    def __init__(self, st):
+        self.cells, self.arrs = [], []
+        seen = set()
+
+        def visit(o):
+            if id(o) in seen:
+                return
+            seen.add(id(o))
+            if isinstance(o, Cell):
+                self.cells.append((o, o.value))
+                if isinstance(o.value, (CStruct, UnionTable, CArr)):
+                    visit(o.value)
+                elif isinstance(o.value, Ptr):
+                    visit(o.value.target)
+            elif isinstance(o, CArr):
+                self.arrs.append((o, o.get, o.written))
+            elif isinstance(o, CStruct):
+                for f in o.fields.values():
+                    visit(f)
+            elif isinstance(o, UnionTable):
+                visit(o.vector)
+            elif isinstance(o, Ptr):
+                visit(o.target)
+        for v in st.env.values():
+            visit(v)
+        self.env_keys = set(st.env.keys())
+        self.guard, self.returned, self.retval = st.guard, st.returned, st.retval
+        self.broke, self.continued = list(st.broke), list(st.continued)
+        self.nfacts = len(st.facts)
+
+    def restore(self, st, keep_facts=False):
+        for c, v in self.cells:
+            c.value = v
+        for a, g, w in self.arrs:
+            a.get, a.written = g, w
+        for k in list(st.env.keys()):
+            if k not in self.env_keys:
+                del st.env[k]
+        st.guard, st.returned, st.retval = self.guard, self.returned, self.retval
+        st.broke, st.continued = list(self.broke), list(self.continued)
+        if not keep_facts:
+            del st.facts[self.nfacts:]
+
+
+_hv = [0]
+
+
+def havoc_obj(o, tag):
+    _hv[0] += 1
+    if isinstance(o, Cell):
+        if isinstance(o.value, (CStruct, UnionTable, CArr)):
+            havoc_obj(o.value, tag)
+        elif isinstance(o.value, Ptr) or "*" in (o.ctype or ""):
+            pass
+        else:
+            mk = z3.Int if is_int_type(o.ctype or "double") else z3.Real
+            o.value = mk("%s!%s!%d" % (o.name or "v", tag, _hv[0]))
+    elif isinstance(o, CArr):
+        f = z3.Function("%s!%s!%d" % (o.name or "arr", tag, _hv[0]), I, I if o.kind == "int" else R)
+        o.get = (lambda j, f=f: f(j))
+        o.havoc_fn = f
+    elif isinstance(o, CStruct):
+        for f in o.fields.values():
+            havoc_obj(f, tag)
+    elif isinstance(o, UnionTable):
+        havoc_obj(o.vector, tag)
+
+
+def _cexec_var(self, st, name, which=0):
+    """Cell/array of the variable called `name` (outermost declaration first)."""
+    hits = [v for v in st.env.values() if getattr(v, "name", None) == name]
+    if not hits:
+        raise OutsideSubset("kernel has no variable %s" % name)
+    return hits[min(which, len(hits) - 1)]
+
+
+def _cexec_val(self, st, name):
+    v = self.var(st, name)
+    return v.value if isinstance(v, Cell) else v
+
+
+def _cexec_oblige(self, name, st, goal, extra=()):
+    self.obligations.append((name, list(st.facts) + list(extra) + [st.live()], goal))
+
+
+CExec.var = _cexec_var
+CExec.val = _cexec_val
+CExec.oblige = _cexec_oblige
+
+
+def resolve_mods(st, node):
+    """Objects modified inside `node`: pointer parameters stand for their targets."""
+    out = []
+    for d in modified_decls(node):
+        if d not in st.env:
+            continue
+        o = st.env[d]
+        if isinstance(o, Cell) and isinstance(o.value, Ptr):
+            o = o.value.target
+        if o not in out:
+            out.append(o)
+    return out
+
+
+class WhileContract(object):
+    """Invariant/postcondition rule for `while (c) body` with `break`:
+         initially:  pre  ==> inv
+         preserved:  inv /\\ c  {body}  (not broke ==> inv) /\\ (broke ==> post)
+         exit:       inv /\\ not c ==> post
+       afterwards the modified variables are havoced and `post` is assumed."""
+
+    def __init__(self, name, inv, post):
+        self.name, self.inv, self.post = name, inv, post
+
+    def __call__(self, ex, s, st, key):
+        cond, body = s["inner"][0], s["inner"][1]
+        mods = resolve_mods(st, s)
+        ex.oblige(self.name + ".inv.initially", st, self.inv(ex, st))
+        snap = Snapshot(st)
+        # arbitrary iteration
+        for o in mods:
+            havoc_obj(o, "it")
+        st.facts.append(z3.Implies(st.live(), self.inv(ex, st)))
+        after_havoc = Snapshot(st)
+        c = to_bool(ex.rvalue(cond, st))
+        # exit case
+        ex.oblige(self.name + ".exit_establishes_post", st, self.post(ex, st), extra=[z3.Not(c)])
+        # body case
+        g0 = st.guard
+        st.guard = z3.simplify(z3.And(g0, c))
+        st.broke.append(z3.BoolVal(False))
+        st.continued.append(z3.BoolVal(False))
+        ex.exec_stmt(body, st)
+        st.continued.pop()
+        broke = st.broke.pop()
+        live_end = st.live()
+        ex.obligations.append((self.name + ".inv.preserved",
+                               list(st.facts) + [live_end, z3.Not(broke)], self.inv(ex, st)))
+        ex.obligations.append((self.name + ".break_establishes_post",
+                               list(st.facts) + [st.guard, z3.Not(st.returned), broke],
+                               self.post(ex, st)))
+        # after the loop
+        snap.restore(st)
+        for o in mods:
+            havoc_obj(o, "after")
+        st.facts.append(z3.Implies(st.live(), self.post(ex, st)))
+
+
+class MapLoop(object):
+    """`for (x = 0; x < n; x++) body` where iteration x writes array A only at
+    indices [c*x, c*x+c) and nothing an iteration reads was written by another
+    iteration: A_after[j] = body_x(A_before)[j] with x = j div c (0 <= x < n)."""
+
+    def __init__(self, name, arrays, stride_of):
+        self.name, self.arrays, self.stride_of = name, arrays, stride_of
+
+    def __call__(self, ex, s, st, key):
+        init, cond, inc, body = s["inner"][0], s["inner"][2], s["inner"][3], s["inner"][4]
+        # loop variable and bound
+        if init.get("kind") == "DeclStmt":
+            ex.exec_stmt(init, st)
+            var = st.env[init["inner"][0]["id"]]
+        else:
+            ex.rvalue(init, st)
+            var = st.env[base_decl(init["inner"][0])]
+        lo = var.value
+        K = z3.Int("k!%s!%d" % (self.name.replace(" ", "_"), _hv[0]))
+        _hv[0] += 1
+        var.value = K
+        c = z3.simplify(to_bool(ex.rvalue(cond, st)))
+        # bound n from the condition K < n
+        n = None
+        if z3.is_app(c) and c.decl().kind() == z3.Z3_OP_LT and z3.eq(c.arg(0), K):
+            n = c.arg(1)
+        elif z3.is_not(c) and c.arg(0).decl().kind() == z3.Z3_OP_LE and z3.eq(c.arg(0).arg(1), K):
+            n = c.arg(0).arg(0)
+        elif z3.is_not(c) and c.arg(0).decl().kind() == z3.Z3_OP_GE and z3.eq(c.arg(0).arg(0), K):
+            n = c.arg(0).arg(1)
+        if n is None or not z3.is_int_value(z3.simplify(lo)) or z3.simplify(lo).as_long() != 0:
+            raise OutsideSubset("map loop %s: not of the form for (x=0; x<n; x++)" % self.name)
+        mods = resolve_mods(st, body)
+        arrays = [a for a in mods if isinstance(a, CArr)]
+        scalars = [m for m in mods if not isinstance(m, CArr) and m is not var]
+        snap = Snapshot(st)
+        before = {id(a): a.get for a in arrays}
+        # scalars written by an iteration must not carry values between iterations
+        marks = []
+        for o in scalars:
+            havoc_obj(o, "maploop")
+        g0 = st.guard
+        st.guard = z3.simplify(z3.And(g0, K >= 0, K < n))
+        st.broke.append(z3.BoolVal(False))
+        st.continued.append(z3.BoolVal(False))
+        for a in arrays:
+            a.read_log = []
+        ex.exec_stmt(body, st)
+        st.continued.pop()
+        broke = st.broke.pop()
+        if not z3.is_false(z3.simplify(broke)):
+            raise OutsideSubset("break inside a map loop")
+        after = {id(a): a.get for a in arrays}
+        for a in arrays:
+            cst = self.stride_of(a, n)
+            for idx in a.read_log:
+                # an iteration reads a written array only inside its own window
+                ex.obligations.append((self.name + ".reads_own_window.%s" % (a.name,),
+                                       list(st.facts) + [K >= 0, K < n],
+                                       z3.And(idx >= cst * K, idx < cst * K + cst)))
+            a.read_log = None
+        snap.restore(st, keep_facts=True)
+        j = z3.Int("j!maploop")
+        for a in arrays:
+            cst = self.stride_of(a, n)
+            gb, ga = before[id(a)], after[id(a)]
+            # footprint: iteration K changes A only inside [c*K, c*K+c)
+            ex.obligations.append((self.name + ".footprint.%s" % (a.name,),
+                                   list(st.facts) + [K >= 0, K < n, z3.Or(j < cst * K, j >= cst * K + cst)],
+                                   ga(j) == gb(j)))
+
+            def newget(jj, ga=ga, gb=gb, cst=cst, K=K, n=n, g=st.live()):
+                kk = jj / cst if cst != 1 else jj
+                val = z3.substitute(ga(jj), (K, kk))
+                return z3.If(z3.And(g, jj >= 0, kk < n), val, gb(jj))
+            a.get = newget
+            a.written = True
+        for o in scalars:
+            havoc_obj(o, "aftermap")
+        var.value = z3.Int("x!after!%d" % _hv[0])
+        _hv[0] += 1
